@@ -437,7 +437,7 @@ func (g *hgen) value(depth int) hv {
 	case k == 6:
 		return hv{K: g.pick([]string{"nil", "nilptr", "ptr", "nilmap"})}
 	case k < 10:
-		e := g.pick([]string{"iface", "iface", "string", "int", "int64", "float64", "uint8"})
+		e := g.pick([]string{"iface", "iface", "string", "int", "int64", "float64", "uint8", "ptrint"})
 		if g.rng.Intn(8) == 0 {
 			return hv{K: "nilslice", E: e}
 		}
@@ -452,6 +452,8 @@ func (g *hgen) value(depth int) hv {
 				el = hv{K: "str", V: g.str()}
 			case "float64":
 				el = hv{K: "float64", V: g.pick([]string{"0", "1", "1.5", "2"})}
+			case "ptrint": // distinct pointers to equal ints, or nil pointers: equal under deep value equality, not under ==
+				el = hv{K: g.pick([]string{"ptr", "ptr", "nilptr"})}
 			default:
 				el = hv{K: e, V: g.pick([]string{"0", "1", "2", "97"})}
 			}
